@@ -50,7 +50,7 @@ def dev_set(devs):
 
 def mc_consts(**kw):
     c = dict(Dev="{}", N=3, I=6, SuspT=4, D=1, Lo=8, Hi=12, K=1, OffStep=0, MaxStop=1, StopBy=13, MaxInj=0,
-             InjStates="{}", MaxInc=0, MaxTime=36, MaxSlow=99, Canon="TRUE")
+             InjStates="{}", MaxInc=0, MaxTime=36, MaxSlow=99, AllInit="TRUE", Canon="TRUE")
     c.update(kw)
     return c
 
@@ -80,10 +80,10 @@ def mc_configs(tier):
         ("n3_stop13", mc_consts(N=3, MaxTime=34, D=1, MaxSlow=1), []),
         ("n3_gossip_stop", mc_consts(N=3, MaxTime=26, D=0, StopBy=7, MaxInj=1, InjStates=ALL_STATES, MaxInc=1), []),
         ("n2_gossip2", mc_consts(N=2, Canon="FALSE", MaxTime=40, MaxInj=2, InjStates=ALL_STATES, MaxInc=1), []),
-        ("n3_gossip2", mc_consts(N=3, MaxTime=24, D=0, StopBy=7, MaxInj=2, InjStates=ALL_STATES, MaxInc=1), []),
+        ("n3_gossip2", mc_consts(N=3, MaxTime=14, D=0, MaxStop=0, MaxInj=2, InjStates=ALL_STATES, MaxInc=1), []),
         ("n3_stagger", mc_consts(N=3, MaxTime=36, D=1, MaxSlow=1, OffStep=2), []),
         ("n3_slow3", mc_consts(N=3, MaxTime=20, MaxStop=0, MaxSlow=3), ["InvNoSuspTimerOnLive"]),
-        ("n4_stop", mc_consts(N=4, K=2, MaxTime=28, StopBy=7, D=0), []),
+        ("n4_stop", mc_consts(N=4, K=2, MaxTime=28, StopBy=7, D=0, AllInit="FALSE"), []),
     ]
 
 
@@ -160,9 +160,9 @@ def simulate_behaviours(tier, seed, pool):
     """TLC random simulation of the as-code model (full nondeterminism: no Canon, no slow budget)."""
     dev = dev_set(as_code_dev())
     jobs = [("b3", mc_consts(Dev=dev, N=3, Canon="FALSE", MaxTime=40, MaxInj=2, InjStates=ALL_STATES, MaxInc=1, K=1),
-             75 if tier == "quick" else 1500),
+             55 if tier == "quick" else 600),
             ("b4", mc_consts(Dev=dev, N=4, K=2, Canon="FALSE", MaxTime=34, StopBy=10, MaxInj=1, InjStates=ALL_STATES,
-                             MaxInc=1, SuspT=5, Lo=7, Hi=13), 0 if tier == "quick" else 600)]
+                             MaxInc=1, SuspT=5, Lo=7, Hi=13), 0 if tier == "quick" else 250)]
     jobs = [j for j in jobs if j[2] > 0]
 
     def one(job):
@@ -181,6 +181,26 @@ def simulate_behaviours(tier, seed, pool):
             f.unlink()
         return name, consts, res, behs
     return [pool.submit(one, j) for j in jobs]
+
+
+TOUR_CONSTS = dict(N=2, Canon="FALSE", MaxTime=34)
+
+
+def tour_behaviours(tier, rng_seed, pool):
+    """Transition tour of the complete 2-node as-code model: the state graph is dumped with `act` in the
+    fingerprint (no VIEW), so the destination state of every edge names the action with all its choices;
+    root paths covering every edge are replayed on the real objects."""
+    consts = mc_consts(Dev=dev_set(as_code_dev()), **TOUR_CONSTS)
+
+    def one():
+        wd = tlc.workdir("C13_tour")
+        cfg = tlc.write_cfg(wd / "mc.cfg", constants=consts)
+        res = tlc.run(SPEC / "SwimMC.tla", cfg, label="C13_tour", timeout=1500, workers=2, dump_dot=wd / "g.dot")
+        g = tlc.parse_dot(wd / "g.dot")
+        (wd / "g.dot").unlink(missing_ok=True)
+        paths = list(tlc.edge_tour(g, rng=random.Random(rng_seed)))
+        return consts, res, g, paths
+    return pool.submit(one)
 
 
 def cfg_of_consts(c):
@@ -298,7 +318,7 @@ def pick_cfg(rng, tier, n=None, scripted=False):
             cfg = W.Cfg(nn, I, S, rng.choice((1, 2, 3)), D, 1000, thr=thr, offsets=pick_offsets(rng, nn, I))
         except ValueError:
             continue
-        cap = 45 if tier == "quick" else 90
+        cap = 40 if tier == "quick" else 90
         if cfg.bound <= cap * I and cfg.healthy():
             return cfg
     raise RuntimeError("no configuration found")
@@ -531,7 +551,9 @@ def judge_swim(chk, traces, meta, verdicts, dev):
     for tid, (v, pos, dr, dpos) in sorted(verdicts.items()):
         tr = traces[tid]
         if v == "ACCEPT":
-            if dr:
+            # counterexamples of the deviation runs come from a model that is deliberately not the code:
+            # replaying them on the unchanged code must diverge, which is not drift of the as-code model
+            if dr and not str(meta[tid].get("origin", "")).startswith("behaviour:cex:"):
                 n_drift += 1
                 chk.note_drift(f"trace {tid} ({meta[tid].get('origin')}): {dr} at step {dpos}")
             continue
@@ -560,6 +582,7 @@ def run(tier, seed, replay=None):
     quick = tier == "quick"
     pool = ThreadPoolExecutor(max_workers=6)
     beh_futs = simulate_behaviours(tier, seed, pool)
+    tour_fut = tour_behaviours(tier, seed, pool)
     mc_futs = model_check(chk, tier, pool)
 
     traces, meta = {}, {}
@@ -574,9 +597,9 @@ def run(tier, seed, replay=None):
         return tid
 
     # code -> spec (while TLC runs): real Simulations and seeded direct drive
-    n_sim = 70 if quick else 900
-    n_wr = 30 if quick else 400
-    n_wa = 40 if quick else 500
+    n_sim = 60 if quick else 600
+    n_wr = 25 if quick else 250
+    n_wa = 35 if quick else 300
     phi_traces = []
     for k in range(n_sim):
         rec = make_recipe(rng, tier, "sim")
@@ -600,6 +623,7 @@ def run(tier, seed, replay=None):
     # model checking results
     cex = harvest_mc(chk, mc_futs)
     chk.exhaustive = True
+    chk.extra["exhaustive_constants"] = {name: {k: v for k, v in c.items() if k != "Dev"} for name, c, _ in mc_configs(tier)}
 
     # spec -> code
     matched = total = 0
@@ -611,6 +635,14 @@ def run(tier, seed, replay=None):
                     note=f"{len(behs)} behaviours generated for replay")
         chk.require(len(behs) > 0, f"TLC simulation {name} produced no behaviour")
         beh_sets.append((name, consts, behs))
+    tconsts, tres, g, paths = tour_fut.result()
+    chk.add_tlc(f"SwimMC state graph n2 (Dev=as-code {dev}, act in the fingerprint)", tres, count=False,
+                note=f"{g.n_edges()} edges, {len(paths)} root paths cover all of them")
+    chk.require(g.inits and g.n_edges() > 0, "empty state graph for the transition tour")
+    cap = 160 if quick else len(paths)
+    chosen = paths if len(paths) <= cap else rng.sample(paths, cap)
+    chk.extra["tour"] = {"edges": g.n_edges(), "paths": len(paths), "replayed": len(chosen)}
+    beh_sets.append(("tour_n2", tconsts, [[g.nodes[root]] + [g.nodes[dst] for (_lab, dst) in p] for root, p in chosen]))
     for devname, res in cex.items():
         states = [dict(st) for (_a, st) in res.trace if "act" in st]
         if states:
